@@ -113,6 +113,13 @@ func IsRetryableError(err error) bool {
 
 	errStr := strings.ToLower(err.Error())
 
+	// An HTTP status reported by the library's own clients ("status code NNN[, body: ...]") decides
+	// alone: the response body that follows is peer-controlled text and must not be pattern-matched.
+	if code, ok := httpStatusOf(errStr); ok {
+		return code == http.StatusRequestTimeout || code == http.StatusConflict ||
+			code == http.StatusTooManyRequests || (code >= 500 && code <= 599)
+	}
+
 	// Network connection errors - use precise matching to avoid false positives
 	if strings.Contains(errStr, "connection refused") ||
 		strings.Contains(errStr, "connection reset") ||
@@ -135,6 +142,24 @@ func IsRetryableError(err error) bool {
 
 	// Default to non-retryable for unknown errors to avoid infinite retry loops
 	return false
+}
+
+// httpStatusOf extracts NNN from the first "status code NNN" / "status code: NNN" in errStr.
+func httpStatusOf(errStr string) (int, bool) {
+	for _, marker := range []string{"status code: ", "status code "} {
+		i := strings.Index(errStr, marker)
+		if i < 0 {
+			continue
+		}
+		rest := errStr[i+len(marker):]
+		if len(rest) < 3 || (len(rest) > 3 && rest[3] >= '0' && rest[3] <= '9') {
+			continue
+		}
+		if code, err := strconv.Atoi(rest[:3]); err == nil && code >= 100 {
+			return code, true
+		}
+	}
+	return 0, false
 }
 
 // isHTTPStatusRetryable checks if an error contains a retryable HTTP status code.
